@@ -35,6 +35,8 @@ Inductive instr :=
 | IClTrunc (h : nat)                     (* cltrunc h *)
 | IJump (l : nat)
 | IJumpIf (l : nat) (nt : bool) (sense : bool)  (* JumpIf{Label,Not}; consumes a decision d, jumps iff d = sense *)
+| ICond                                  (* evaluation of a repeat loop's condition: consumes a decision, remembers it *)
+| IJumpLast (l : nat) (nt : bool)        (* JumpIf{Label,Not} on the remembered condition: jumps iff it was true *)
 | ILabel (l : nat)
 | ICall (c : list instr)                 (* MkClosure(code c) ... Call{Tail:false} *)
 | ITailCall (c : list instr)             (* MkClosure(code c) ... Call{Cont: new continuation, Tail:true} *)
@@ -184,44 +186,46 @@ Definition root_ctx : ctx := [mkScope [] 0].
 (* compile_stats cx n tl fbody b : the statements of b from the current
    position; tl = number of statements left before truncLen; fbody: b is a
    function body (a return is appended when it has none).  Includes the pops
-   of the scopes opened by its local statements.
+   of the scopes opened by its local statements; endc is emitted where the
+   statements end without a return (the `until` condition of a repeat loop,
+   evaluated before the pops).
    compile_stmt: a single statement that is not a local. *)
-Fixpoint compile_stats (cx : ctx) (n : nat) (tl : nat) (fbody : bool) (b : block) {struct b}
+Fixpoint compile_stats (cx : ctx) (n : nat) (tl : nat) (fbody : bool) (endc : code) (b : block) {struct b}
   : option (code * nat) :=
   match b with
-  | BNil => Some ((if fbody then [IRet] else []), n)
+  | BNil => Some ((if fbody then [IRet] else endc), n)
   | BRet RPlain => Some ([IRet], n)
   | BRet (RCall body) =>
     match block_prologue root_ctx 0 body true true with
     | None => None
     | Some (cx0, n0, tl0) =>
-      obind (compile_stats cx0 n0 tl0 true body) (fun '(c, _) =>
+      obind (compile_stats cx0 n0 tl0 true [] body) (fun '(c, _) =>
         if Nat.eqb (top_height cx) 0 then Some ([ITailCall c], n) else Some ([ICall c; IRet], n))
     end
   | BCons (SLocal v) rest =>
     let cx1 := push_ctx cx in
     obind (get_labels cx1 n (firstn (pred tl) (shapes rest))) (fun '(cx2, n2, _) =>
       let cx3 := local_ctx cx2 v in
-      obind (compile_stats cx3 n2 (pred tl) fbody rest) (fun '(c, n3) =>
+      obind (compile_stats cx3 n2 (pred tl) fbody endc rest) (fun '(c, n3) =>
         Some (local_code v ++ c ++ pop_code cx3, n3)))
   | BCons t rest =>
     obind (compile_stmt cx n t) (fun '(c1, n1) =>
-      obind (compile_stats cx n1 (pred tl) fbody rest) (fun '(c2, n2) =>
+      obind (compile_stats cx n1 (pred tl) fbody endc rest) (fun '(c2, n2) =>
         Some (c1 ++ c2, n2)))
   end
 with compile_stmt (cx : ctx) (n : nat) (t : stmt) {struct t} : option (code * nat) :=
-  let block_in (cx : ctx) (n : nat) (b : block) (complete : bool) :=
+  let block_in (cx : ctx) (n : nat) (b : block) (complete : bool) (endc : code) :=
     match block_prologue cx n b complete false with
     | None => None
-    | Some (cx', n', tl) => compile_stats cx' n' tl false b
+    | Some (cx', n', tl) => compile_stats cx' n' tl false endc b
     end in
   let do_block (cx : ctx) (n : nat) (b : block) :=      (* ProcessBlockStat *)
     let cx1 := push_ctx cx in
-    obind (block_in cx1 n b true) (fun '(c, n') => Some (c ++ pop_code cx1, n')) in
+    obind (block_in cx1 n b true []) (fun '(c, n') => Some (c ++ pop_code cx1, n')) in
   let func (b : block) :=
     match block_prologue root_ctx 0 b true true with
     | None => None
-    | Some (cx0, n0, tl0) => obind (compile_stats cx0 n0 tl0 true b) (fun '(c, _) => Some c)
+    | Some (cx0, n0, tl0) => obind (compile_stats cx0 n0 tl0 true [] b) (fun '(c, _) => Some c)
     end in
   match t with
   | SLocal _ => None
@@ -232,12 +236,12 @@ with compile_stmt (cx : ctx) (n : nat) (t : stmt) {struct t} : option (code * na
       Some ([ILabel (n + 1); IJumpIf n true false] ++ c ++ [IJump (n + 1); ILabel n] ++ pop_code cx2, n'))
   | SLoop LRepeat b =>
     let cx2 := add_label (push_ctx cx) NBreak n in
-    obind (block_in cx2 (n + 2) b false) (fun '(c, n') =>
-      Some ([ILabel (n + 1)] ++ c ++ [IJumpIf (n + 1) false true; ILabel n] ++ pop_code cx2, n'))
+    obind (block_in cx2 (n + 2) b false [ICond]) (fun '(c, n') =>
+      Some ([ILabel (n + 1)] ++ c ++ [IJumpLast (n + 1) false; ILabel n] ++ pop_code cx2, n'))
   | SLoop (LForIn v) b =>
     let cx2 := add_height (push_ctx cx) in
     let cx3 := add_label cx2 NBreak (n + 1) in
-    obind (block_in cx3 (n + 2) b true) (fun '(c, n') =>
+    obind (block_in cx3 (n + 2) b true []) (fun '(c, n') =>
       Some (open_code v ++ [IClPush (forin_val v); ILabel n; IJumpIf (n + 1) false false] ++ c
             ++ [IJump n; ILabel (n + 1)] ++ pop_code cx3, n'))
   | SIf b =>
@@ -258,7 +262,7 @@ with compile_stmt (cx : ctx) (n : nat) (t : stmt) {struct t} : option (code * na
 Definition compile_fun (b : block) : option code :=
   match block_prologue root_ctx 0 b true true with
   | None => None
-  | Some (cx0, n0, tl0) => obind (compile_stats cx0 n0 tl0 true b) (fun '(c, _) => Some c)
+  | Some (cx0, n0, tl0) => obind (compile_stats cx0 n0 tl0 true [] b) (fun '(c, _) => Some c)
   end.
 
 (* The whole program: the harness wraps the body in pcall on the main thread. *)
